@@ -51,7 +51,7 @@ package logger
 //@
 //@ func type:field
 //@   requires b != nil && e != nil && e.Response != nil && len(shortMonthNames) == 13
-//@   assigns bufOf
+//@   assigns bufOf, localCalendarReads
 //@   ensures nopanic
 //@   ensures forall x *bytes.Buffer :: x != b ==> bufOf[x] == old(bufOf[x])
 //@   ensures len(bufOf[b]) >= len(old(bufOf[b]))
@@ -135,22 +135,32 @@ package logger
 //@ func fields["$time_common"]
 //@   props C20
 //@   conforms type:field
+//@   // printed with a literal Z / +0000: every calendar field is read off the UTC form of the time stamp
+//@   ensures localCalendarReads == old(localCalendarReads)
 //@
 //@ func fields["$time_rfc3339"]
 //@   props C20
 //@   conforms type:field
+//@   // printed with a literal Z / +0000: every calendar field is read off the UTC form of the time stamp
+//@   ensures localCalendarReads == old(localCalendarReads)
 //@
 //@ func fields["$time_rfc3339_ms"]
 //@   props C20
 //@   conforms type:field
+//@   // printed with a literal Z / +0000: every calendar field is read off the UTC form of the time stamp
+//@   ensures localCalendarReads == old(localCalendarReads)
 //@
 //@ func fields["$time_rfc3339_us"]
 //@   props C20
 //@   conforms type:field
+//@   // printed with a literal Z / +0000: every calendar field is read off the UTC form of the time stamp
+//@   ensures localCalendarReads == old(localCalendarReads)
 //@
 //@ func fields["$time_rfc3339_ns"]
 //@   props C20
 //@   conforms type:field
+//@   // printed with a literal Z / +0000: every calendar field is read off the UTC form of the time stamp
+//@   ensures localCalendarReads == old(localCalendarReads)
 //@
 //@ func fields["$upstream_addr"]
 //@   props C20
@@ -186,7 +196,7 @@ package logger
 //@   props C20
 //@   requires b != nil && e != nil && e.Response != nil && len(shortMonthNames) == 13
 //@   requires forall i int :: 0 <= i && i < len(p) ==> p[i] != nil
-//@   assigns bufOf
+//@   assigns bufOf, localCalendarReads
 //@   ensures nopanic
 //@   // only the event's own buffer is written
 //@   ensures forall x *bytes.Buffer :: x != b ==> bufOf[x] == old(bufOf[x])
@@ -196,7 +206,7 @@ package logger
 //@   props C20
 //@   requires l != nil && l.w != nil && e != nil && e.Response != nil && len(shortMonthNames) == 13
 //@   requires forall i int :: 0 <= i && i < len(l.p) ==> l.p[i] != nil
-//@   assigns bufOf, wr, ioWrites, lastWrite
+//@   assigns bufOf, localCalendarReads, wr, ioWrites, lastWrite
 //@   ensures nopanic
 //@   // every event is handed to the writer as ONE write of the rendered line
 //@   ensures ioWrites == old(ioWrites) + 1
